@@ -636,6 +636,32 @@ func (x *Exec) attachSliceFacts(st *State, arr *VAbsArr, t types.Type, v ssa.Val
 
 // bindLocals adds the locals of a frame under their source names (DebugRef).
 func (x *Exec) bindLocals(env *SpecEnv, fr *Frame) {
+	// address-taken locals: the Alloc carries the variable name
+	type cand struct {
+		pos token.Pos
+		tv  TV
+	}
+	best := map[string]cand{}
+	for v, val := range fr.env {
+		a, ok := v.(*ssa.Alloc)
+		if !ok || a.Comment == "" || a.Comment == "complit" || a.Comment == "varargs" || a.Comment == "slicelit" || a.Comment == "makeslice" || a.Comment == "new" {
+			continue
+		}
+		if _, taken := env.vars[a.Comment]; taken {
+			continue
+		}
+		p, ok := val.(VPtr)
+		if !ok || p.Loc == nil {
+			continue
+		}
+		elem := a.Type().Underlying().(*types.Pointer).Elem()
+		if c, ok := best[a.Comment]; !ok || a.Pos() > c.pos {
+			best[a.Comment] = cand{a.Pos(), TV{env.loadLoc(p.Loc, elem), elem}}
+		}
+	}
+	for n, c := range best {
+		env.vars[n] = c.tv
+	}
 	for name, nr := range fr.names {
 		if _, taken := env.vars[name]; taken {
 			continue
